@@ -129,30 +129,32 @@ def m_update(root, value, key=None, only_unset=False):
 
 
 def m_as_dict(root):
-    out = {}
-    for k, v in root.items():
+    """nested dictionaries all the way down: a namespace is a mapping wherever it sits, also inside lists / tuples / dicts"""
+    def conv(v):
         if isinstance(v, NS):
-            v = m_as_dict(v)
-        elif isinstance(v, dict) and v != {} and all(isinstance(x, NS) for x in v.values()):
-            v = {kk: m_as_dict(x) for kk, x in v.items()}
-        elif isinstance(v, list) and v != [] and all(isinstance(x, NS) for x in v):
-            v = [m_as_dict(x) for x in v]
-        out[k] = v
-    return out
+            return m_as_dict(v)
+        if isinstance(v, dict):
+            return {kk: conv(x) for kk, x in v.items()}
+        if isinstance(v, (list, tuple)):
+            return type(v)(conv(x) for x in v)
+        return v
+
+    return {k: conv(v) for k, v in root.items()}
 
 
 def m_clone(root):
     return copy.deepcopy(root)
 
 
-def has_dict_leaf(v):
-    """a plain dict anywhere below (a value that dict_to_namespace would turn into a branch)"""
+def has_dict_leaf(v, in_container=False):
+    """a plain dict anywhere below (a value that dict_to_namespace would turn into a branch), or a namespace held inside a list /
+    tuple (which as_dict turns into a dict that the way back leaves a dict)"""
     if isinstance(v, NS):
-        return any(has_dict_leaf(x) for x in v.values())
+        return in_container or any(has_dict_leaf(x) for x in v.values())
     if isinstance(v, dict):
         return True
-    if isinstance(v, list):
-        return any(has_dict_leaf(x) for x in v)
+    if isinstance(v, (list, tuple)):
+        return any(has_dict_leaf(x, True) for x in v)
     return False
 
 
